@@ -70,8 +70,9 @@ def r1_selection_atoms(ctx):
         where = "%s:%s" % (c.file, c.line)
         r.check(bool(somes) or bool(finals), name + "/result", "the closure can select", "no Some(tx) result found in %s" % name, where)
         atoms = {}
-        for e, cn, bi in q.cmp_atoms(c):
-            atoms.setdefault(cn.replace(KEY, "KEY").replace(KEY2, "KEY"), []).append(e)
+        for e0, cn0, bi in q.cmp_atoms(c):
+            for e, cn in q.atom_forms(e0):          # as spelled and negated: `if kind != Swap { return None }` is the atom kind == Swap
+                atoms.setdefault(cn.replace(KEY, "KEY").replace(KEY2, "KEY"), []).append(e)
         calls = {}
         for bi, e in q.all_call_exprs(c):
             s = sig(e)
@@ -169,21 +170,30 @@ def _resolve(parent, c, e):
 def r3_swaps(ctx):
     r = ctx.rule("R3", "process_swaps_for_single_pool: left requests → swap_many arg 1, paid from result.1 in pool.right(); right requests symmetric; pro rata by own/total; pool written back")
     b, cls = _worker(ctx, r, "process_swaps_for_single_pool")
-    # totals
-    tl = q.var_def_exprs(b, "total_lefts")
-    tr = q.var_def_exprs(b, "total_rights")
-    r.anchor(tl and tr, "total_lefts / total_rights")
+    # totals: by role — what is handed to swap_many as (lefts, rights) — not by the name of a local
+    sm0 = q.call_exprs(b, "PoolState::swap_many")
+    r.anchor(sm0, "call of PoolState::swap_many in process_swaps_for_single_pool")
+    tl = [(sm0[0][0], mir.strip(sm0[0][1][2][1]))]
+    tr = [(sm0[0][0], mir.strip(sm0[0][1][2][2]))]
 
     def side_total(defs, side):
         e = defs[0][1]
-        if not (q.is_call(e, "fold") and q.is_call(e[2][0], "Iterator::map") and sig(e[2][0][2][0]) == "$3" and q.const_val(e[2][1]) == 0):
+        if not (q.is_call(e, "fold") and q.is_call(e[2][0], "Iterator::map") and sig(e[2][0][2][0]) == "$3" and q.const_val(e[2][1]) == 0 and e[2][0][2][1][0] == "closure" and e[2][2][0] == "closure"):
             return "shape:" + sig(e)[:120]
         mc = ctx.prog.body(e[2][0][2][1][1])
         fc = ctx.prog.body(e[2][2][1])
         atoms = q.cmp_atoms(mc)
-        want = "Eq(%s($2.outputs, 0).denom, PoolKey::%s(^pool))" % (IDX, side)
-        if [a[1] for a in atoms] != [want]:
-            return "term-condition:%s" % [a[1] for a in atoms]
+        # the side test, with captured variables replaced by what the closure captured where it was built (directly `pool`, or a `denom`
+        # parameter of a helper that was called with pool.left() / pool.right())
+        caps = dict(e[2][0][2][1][2]) if len(e[2][0][2][1]) > 2 else {}
+        caps.update({k.replace("_ref__", ""): v for k, v in list(caps.items())})
+
+        def resolved(a):
+            cm = q.as_cmp(a[0])
+            return q.canon_cmp(cm[0], q.subst_simplify(q.novers(cm[1]), {}, caps), q.subst_simplify(q.novers(cm[2]), {}, caps)) if cm else a[1]
+        want = "Eq(%s($2.outputs, 0).denom, PoolKey::%s($1))" % (IDX, side)
+        if [resolved(a) for a in atoms] != [want]:
+            return "term-condition:%s" % [resolved(a) for a in atoms]
         f = force(mc, {atoms[0][0]: 1})
         vals = {sig(x[2]) for x in q.ret_assignments(mc) if x[0] in f.reach}
         if vals != {"%s($2.outputs, 0).value" % IDX}:
@@ -198,12 +208,14 @@ def r3_swaps(ctx):
         return None
     for nm, defs, side in (("total_lefts", tl, "left"), ("total_rights", tr, "right")):
         bad = side_total(defs, side)
+        if bad is not None and bad.startswith("shape:"):
+            r.undecided("totals/" + side, "the %s-side total handed to swap_many is not a map/fold over the batch (%s): its composition is not decided" % (side, bad[6:]))
+            continue
         r.check(bad is None, "totals/" + side, "%s = Σ value of requests whose denom is pool.%s()" % (nm, side), "%s is not the sum of the %s-side requests (%s)" % (nm, side, bad))
     sm = q.call_exprs(b, "PoolState::swap_many")
     r.check(len(sm) == 1, "swap_many/one", "one swap_many", "%d swap_many calls" % len(sm))
     for bi, e in sm:
-        ok = q.novers(e[2][1]) == q.novers(tl[0][1]) and q.novers(e[2][2]) == q.novers(tr[0][1])
-        r.check(ok, "swap_many/args", "swap_many(total_lefts, total_rights)", "swap_many arguments are not (total_lefts, total_rights) in that order", b.where(bi))
+        # (order of the two arguments: decided by totals/left and totals/right above — argument 1 must be the left-side sum, argument 2 the right-side sum)
         r.check(sig(q.novers(e[2][0])) == "pool_state" and q.var_sig(b, "pool_state") == "Option::unwrap(SmtMapping::get($2.pools, $1))", "swap_many/pool", "on the named pool's state", "on %s" % sig(e[2][0]), b.where(bi))
     ins = q.call_exprs(b, "SmtMapping::insert")
     r.check(len(ins) == 1 and sig(q.novers(ins[0][1])) == "SmtMapping::insert($2.pools, $1, pool_state)" and all(b.dominates(s[0], ins[0][0]) for s in sm), "pool-written-back",
@@ -467,7 +479,7 @@ def r6_stage_order(ctx):
     want = "melmint::process_pegging(melmint::process_withdrawals(melmint::process_deposits(melmint::process_swaps(melmint::create_builtins($1)))))"
     r.check(s == want, "chain", "stages in order", "preseal_melmint returns %s" % s)
     e = ctx.body(MM + "extract_pool_keys_sorted", r)
-    cl = ctx.prog.closures_of(e)
+    cl = ctx.prog.all_nested(e)        # the sort/dedup may sit in a closure (`.pipe(|mut v| ..)`) or in the function itself
     srt = [c for c in cl if q.calls_matching(c, lambda n, p: n.split("::")[-1].startswith("sort"))]
     r.check(len(srt) == 1, "sorted", "pool keys are sorted", "pool keys are not sorted")
     for c in srt:
